@@ -7,6 +7,7 @@ import (
 	"time"
 
 	"github.com/bmeg/grip/config"
+	"github.com/bmeg/grip/gdbi"
 	"github.com/bmeg/grip/gripper"
 	"github.com/bmeg/grip/gripql"
 	"github.com/bmeg/grip/log"
@@ -60,7 +61,10 @@ func (server *GripServer) buildSchemas(ctx context.Context) {
 				if isSchema(name) {
 					continue
 				}
-				if _, ok := server.schemas[name]; ok {
+				server.schemaLock.RLock()
+				_, ok := server.schemas[name]
+				server.schemaLock.RUnlock()
+				if ok {
 					log.WithFields(log.Fields{"graph": name}).Debug("skipping build; cached schema found")
 					continue
 				}
@@ -68,11 +72,13 @@ func (server *GripServer) buildSchemas(ctx context.Context) {
 				schema, err := gdb.BuildSchema(ctx, name, server.conf.Server.SchemaInspectN, server.conf.Server.SchemaRandomSample)
 				if err == nil {
 					log.WithFields(log.Fields{"graph": name}).Debug("cached graph schema")
+					server.schemaLock.Lock()
 					err := server.addFullGraph(ctx, fmt.Sprintf(schema.Graph, schemaSuffix), schema)
 					if err != nil {
 						log.WithFields(log.Fields{"graph": name, "error": err}).Error("failed to store graph schema")
 					}
 					server.schemas[name] = schema
+					server.schemaLock.Unlock()
 				} else {
 					log.WithFields(log.Fields{"graph": name, "error": err}).Error("failed to build graph schema")
 				}
@@ -103,14 +109,27 @@ func (server *GripServer) cacheSchemas(ctx context.Context) {
 }
 
 func (server *GripServer) updateGraphMap() {
+	// one update at a time, so that the map that is installed last was also computed last
+	server.updateLock.Lock()
+	defer server.updateLock.Unlock()
+
+	server.mapLock.RLock()
+	dbs := make(map[string]gdbi.GraphDB, len(server.dbs))
+	for n, d := range server.dbs {
+		dbs[n] = d
+	}
+	server.mapLock.RUnlock()
+
 	o := map[string]string{}
 	for k, v := range server.conf.Graphs {
 		o[k] = v
 	}
-	for n, dbs := range server.dbs {
-		for _, g := range dbs.ListGraphs() {
+	started := map[string]gdbi.GraphDB{}
+	for n, db := range dbs {
+		for _, g := range db.ListGraphs() {
 			o[g] = n
 			if strings.HasSuffix(g, "__mapping__") {
+				// reads the mapping graph through the server itself: no lock may be held here
 				graph, err := server.getGraph(g)
 				if err == nil {
 					log.Infof("Reading config for a gripper driver %s", g)
@@ -119,7 +138,7 @@ func (server *GripServer) updateGraphMap() {
 					gdb, err := StartDriver(config.DriverConfig{Gripper: &gripper.Config{Graph: graphName, Mapping: mapping}}, server.sources)
 					if err == nil {
 						driverName := fmt.Sprintf("%s__driver__", graphName)
-						server.dbs[driverName] = gdb
+						started[driverName] = gdb
 						o[graphName] = driverName
 					} else {
 						log.Errorf("Failed to start gripper: %s", graphName)
@@ -130,7 +149,12 @@ func (server *GripServer) updateGraphMap() {
 			}
 		}
 	}
+	server.mapLock.Lock()
+	for n, d := range started {
+		server.dbs[n] = d
+	}
 	server.graphMap = o
+	server.mapLock.Unlock()
 }
 
 func (server *GripServer) addFullGraph(ctx context.Context, graphName string, schema *gripql.Graph) error {
